@@ -12,8 +12,8 @@
   Mirrors (defects included):
     server/layer.go      NewLayer, NewLayerFromLayer, Layer.Remove
     server/manifest.go   WriteManifest (O_TRUNC in place, then ONE write), Manifest.Remove, RemoveLayers
-    server/images.go     CopyModel (O_TRUNC in place, then copy_file_range), PullModel, deleteUnusedLayers,
-                         PruneLayers, verifyBlob
+    server/images.go     CopyModel (O_TRUNC in place, then copy_file_range), PullModel (each missing layer is downloaded
+                         and verified at once, before the next is fetched), deleteUnusedLayers, PruneLayers, verifyBlob
     server/download.go   downloadBlob, Prepare/readPart/newPart/writePart, run, downloadChunk (one part: blobs < 100 MB)
     server/routes.go     CreateBlobHandler, CreateHandler (gguf file + new data layers), DeleteHandler, Serve (start-up)
     server/fixblobs.go   fixBlobs (identity here: no `sha256:` file names exist in the modelled alphabet)
@@ -324,32 +324,26 @@ def download (env : Env) (k : Nat) (d : Digest) (data : Bytes) (st : Store) : Re
       pwrites P 0 (env.chunk data) ++
       writePart env (k + 1) R ⟨0, 0, data.length, data.length⟩ ++ [.rm R]) ++ [.mv P (.blob d)], true⟩
 
-/-- the download loop of `PullModel` over `layers ++ [config]`; returns in `Res` the effects and
-collects which digests were NOT cache hits (to be verified) -/
-def downloads (env : Env) (reg : Digest → Option Bytes) (k : Nat) (ds : List Digest) (st : Store) :
-    Res × List Digest :=
-  match ds with
-  | [] => (⟨[], true⟩, [])
-  | d :: rest =>
-    if present st (.blob d) then downloads env reg (k + 2) rest st      -- cache hit: skipVerify
-    else match reg d with
-      | none => (⟨[], false⟩, [])                                -- 404
-      | some data =>
-        let a := download env k d data st
-        if a.ok then
-          let (b, v) := downloads env reg (k + 2) rest (run a.effs st)
-          (⟨a.effs ++ b.effs, b.ok⟩, d :: v)
-        else (a, [])
+/-- `verifyBlob` of one freshly downloaded digest: on a mismatch the blob is removed and the pull
+fails -/
+def verify1 (env : Env) (d : Digest) (st : Store) : Res :=
+  match get st (.blob d) with
+  | some (.raw bs) => if env.hash bs = d then ⟨[], true⟩ else ⟨[.rm (.blob d)], false⟩
+  | _ => ⟨[], false⟩
 
-/-- `verifyBlob` over the freshly downloaded digests: on a mismatch the blob is removed and the
-pull fails -/
-def verify (env : Env) (ds : List Digest) (st : Store) : Res :=
+/-- the loop of `PullModel` over `layers ++ [config]`: a blob that is there is a cache hit (skipped,
+NOT verified); a missing one is downloaded and verified at once, before anything else is fetched
+(/repo 40ada04a3; until then all downloads came first and the verifications after the loop — the same
+effect list for an honest registry) -/
+def downloads (env : Env) (reg : Digest → Option Bytes) (k : Nat) (ds : List Digest) (st : Store) : Res :=
   match ds with
   | [] => ⟨[], true⟩
   | d :: rest =>
-    match get st (.blob d) with
-    | some (.raw bs) => if env.hash bs = d then verify env rest st else ⟨[.rm (.blob d)], false⟩
-    | _ => ⟨[], false⟩
+    if present st (.blob d) then downloads env reg (k + 2) rest st      -- cache hit: skipVerify
+    else match reg d with
+      | none => ⟨[], false⟩                                      -- 404
+      | some data =>
+        ((download env k d data st).andThen st (verify1 env d)).andThen st (downloads env reg (k + 2) rest)
 
 /-- `deleteUnusedLayers(deleteMap)`: whatever of `cand` no readable manifest names, in map order
 (`env.ord` also stands for the set semantics of the Go map: it may drop duplicates) -/
@@ -367,11 +361,9 @@ def pull (env : Env) (reg : Digest → Option Bytes) (n : Name) (m : Man) (st : 
     | some o => o.all.map Layer.digest
     | none => []
   let want := m.all.map Layer.digest
-  let (dl, fresh) := downloads env reg 0 want st
-  dl.andThen st fun st1 =>
-    (verify env fresh st1).andThen st1 fun st2 =>
-      (writeManifest env (2 * want.length) n m).andThen st2 fun st3 =>
-        cleanupPull env (oldDigests.filter (fun d => !want.contains d)) st3
+  (downloads env reg 0 want st).andThen st fun st2 =>
+    (writeManifest env (2 * want.length) n m).andThen st2 fun st3 =>
+      cleanupPull env (oldDigests.filter (fun d => !want.contains d)) st3
 
 /-! ## restart: what `Serve` does before listening -/
 
